@@ -1,0 +1,46 @@
+//go:build verif
+// +build verif
+
+// Command verifstringer2 runs the repository's forked stringer twice in one
+// process on the same path: first on the file as it is, then - after the file
+// has been replaced by <replacement.go> - again, and prints the second result.
+// What the stringer generates is a function of the file's content at the time
+// of the call. It is compiled only with the "verif" tag.
+//
+// usage: verifstringer2 <types.go> <Type1,Type2,...> <replacement.go>
+package main
+
+import (
+	"fmt"
+	"os"
+	"strings"
+
+	"github.com/tormoder/fit/cmd/fitgen/internal/fitstringer"
+)
+
+func main() {
+	if len(os.Args) != 4 {
+		fmt.Fprintln(os.Stderr, "usage: verifstringer2 <types.go> <Type1,Type2,...> <replacement.go>")
+		os.Exit(2)
+	}
+	types := strings.Split(os.Args[2], ",")
+	if _, err := fitstringer.Generate(types, os.Args[1]); err != nil {
+		fmt.Fprintln(os.Stderr, "first run:", err)
+		os.Exit(1)
+	}
+	repl, err := os.ReadFile(os.Args[3])
+	if err != nil {
+		fmt.Fprintln(os.Stderr, err)
+		os.Exit(2)
+	}
+	if err := os.WriteFile(os.Args[1], repl, 0o644); err != nil {
+		fmt.Fprintln(os.Stderr, err)
+		os.Exit(2)
+	}
+	out, err := fitstringer.Generate(types, os.Args[1])
+	if err != nil {
+		fmt.Fprintln(os.Stderr, "second run:", err)
+		os.Exit(1)
+	}
+	os.Stdout.Write(out)
+}
